@@ -379,13 +379,26 @@ def run_check(pid: str, tier: str, seed: int, replay: str | None = None) -> int:
             except Exception:
                 ctx.brk('correspondence', pid + '.sweep', 'sweep harness exception: ' + traceback.format_exc()[-2000:])
         # 5b. replay every listed known finding on the implementation (it must be reported on every run while it exists)
-        if hasattr(mod, 'check_known'):
-            for e in known:
-                if e.get('kind', 'known') == 'known' and e.get('witness') is not None:
-                    try:
-                        mod.check_known(ctx, e)
-                    except Exception:
-                        ctx.notes.setdefault('check_known_exceptions', []).append(e['id'] + ': ' + traceback.format_exc()[-300:])
+        for e in known:
+            if e.get('kind', 'known') != 'known' or e.get('witness') is None:
+                continue
+            try:
+                if hasattr(mod, 'check_known'):
+                    mod.check_known(ctx, e)
+                elif hasattr(mod, 'replay'):
+                    # generic: replay the witness through the module's replay(); any failure it reports is this finding
+                    tmp = Ctx(pid, tier, seed)
+                    sigs = e.get('signatures') or ([e['signature']] if e.get('signature') else [])
+                    mod.replay(tmp, {'property': pid, 'witness': e['witness'], 'signature': sigs[0] if sigs else None,
+                                     'what': e.get('what')})
+                    if tmp.failures:
+                        f0 = tmp.failures[0]
+                        sig = f0.sig if match_known(f0, [e]) else (sigs[0] if sigs else f0.sig)
+                        ctx.fail(sig, e.get('what', f0.what), e['witness'])
+                    else:
+                        ctx.notes.setdefault('known_witness_no_longer_fails', []).append(e['id'])
+            except Exception:
+                ctx.notes.setdefault('check_known_exceptions', []).append(e['id'] + ': ' + traceback.format_exc()[-300:])
         # 6. search ----------------------------------------------------------------------------------------------
         unlisted = [f for f in ctx.failures if not match_known(f, known)]
         if ctx.broken and not unlisted and hasattr(mod, 'search'):
